@@ -345,7 +345,8 @@ Proof.
       exists p, r. split; [unfold p; lia|]. split; [lia|]. split.
       { intros m Hm. apply N.le_trans with ((k' + 1) * B); [lia | apply Hup; exact Hm]. }
       destruct (N.eqb_spec (crcf P tyb pl) crc) as [Heq|Hne].
-      * assert (Epl : pl = fp) by (apply (Hnc tyb fp n Hn Heq)).
+      * assert (HL7 : L + 7 <= B) by lia.
+        assert (Epl : pl = fp) by (apply (Hnc tyb fp n HL7 Hn Heq)).
         right. right. exists (rdat S k' (c' + 7 + L)).
         split; [rewrite Hrf0, Hrf, Epl; reflexivity|]. split; [exact Hlands|].
         split; [exact Htail|]. split; [|unfold p; fold lp; lia].
